@@ -450,8 +450,13 @@ func CalculateBestCacheSize(argb []uint32, quality int, refs *BackwardRefs, cach
 	litOff := 0
 	for i := 0; i < numHistos; i++ {
 		ls := histogramNumCodes(i)
-		histoSlab[i].Literal = litSlab[litOff : litOff+ls : litOff+ls]
-		histoSlab[i].paletteCodeBits = i
+		// The slab may be reused from a previous encode: zero the whole
+		// struct so that stale Red/Blue/Alpha/Distance counts do not leak
+		// into the cost estimate (litSlab is already zeroed above).
+		histoSlab[i] = Histogram{
+			Literal:         litSlab[litOff : litOff+ls : litOff+ls],
+			paletteCodeBits: i,
+		}
 		histoSlab[i].resetStats()
 		histos[i] = &histoSlab[i]
 		litOff += ls
